@@ -313,6 +313,9 @@ func (a *NXActionConnTrack) UnmarshalBinary(data []byte) error {
 			return errors.New("failed to decode actions")
 		}
 		a.actions = append(a.actions, act)
+		if act.Len() == 0 {
+			return errors.New("The conntrack action contains an action of length 0.")
+		}
 		n += int(act.Len())
 	}
 	a.Length = uint16(n)
